@@ -256,6 +256,7 @@ namespace bloch::runtime {
         bool m_executed = false;  // single-use guard
         // Class runtime metadata and heap tracking
         std::unordered_map<std::string, std::shared_ptr<RuntimeClass>> m_classTable;
+        bool m_buildingClassTable = false;
         std::vector<std::weak_ptr<Object>> m_heap;
         RuntimeClass* m_currentClassCtx = nullptr;
         bool m_inStaticContext = false;
